@@ -142,8 +142,8 @@ fn rec_cycle(env: &Env, t: &T, stack: &mut Vec<String>) -> bool {
         _ => false,
     }
 }
-fn has_record_cycle(env: &Env) -> bool { env.iter().any(|(n, _)| rec_cycle(env, &T::var(n), &mut vec![])) }
-fn has_ref(env: &Env, t: &T, depth: u32) -> bool {
+pub fn has_record_cycle(env: &Env) -> bool { env.iter().any(|(n, _)| rec_cycle(env, &T::var(n), &mut vec![])) }
+pub fn has_ref(env: &Env, t: &T, depth: u32) -> bool {
     match t {
         T::Func(..) | T::Serv(_) => true,
         T::Var(x) => depth > 0 && env.iter().find(|d| d.0 == *x).map(|d| has_ref(env, &d.1, depth - 1)).unwrap_or(false),
